@@ -62,14 +62,14 @@ func (t *tree) Load(buf []byte) error {
 func (t *tree) Upsert(pattern []byte, f func([]byte) []byte) error {
 	t.mtx.Lock()
 	defer t.mtx.Unlock()
-	t.root.update(format.Topic(pattern), f)
+	t.root.update(format.Levels(pattern), f)
 	return nil
 }
 
 func (this *tree) Walk(topic []byte, iterator NodeIterator) {
 	this.mtx.RLock()
 	defer this.mtx.RUnlock()
-	this.root.walk(topic, iterator)
+	this.root.walk(format.Levels(topic), iterator)
 }
 func (this *tree) Iterate(iterator NodeIterator) {
 	this.mtx.RLock()
@@ -84,10 +84,10 @@ func newNode() *Node {
 }
 
 func (n *Node) update(topic format.Topic, f func([]byte) []byte) {
-	topic, token := topic.Next()
-	if token == "" {
+	if topic == nil {
 		n.Data = f(n.Data)
 	} else {
+		topic, token := topic.Next()
 		child, ok := n.Children[token]
 		if !ok {
 			child = newNode()
@@ -110,11 +110,11 @@ func (this *Node) iterate(iterator NodeIterator) {
 	}
 }
 func (this *Node) walk(topic format.Topic, iterator NodeIterator) {
-	topic, token := topic.Next()
-	if token == "" {
+	if topic == nil {
 		iterator(this.Data)
 		return
 	}
+	topic, token := topic.Next()
 
 	for k, n := range this.Children {
 		// If the key is "#", then these subscribers are added to the result set
